@@ -109,11 +109,11 @@ PROPS = {
         ],
     },
     'C17': {
-        'contracts': [PXC + 'login', (PXC + 'set_unique_prompt', 'verify'), PXC + 'prompt'],
+        'contracts': [PXC + 'login', (PXC + 'set_unique_prompt', 'verify'), PXC + 'prompt', (PXC + 'sync_original_prompt', 'ctx:sync')],
         'assumptions': [
             'expect() is a non-deterministic oracle: it may return any index of the list it is given, or raise EOF / TIMEOUT exactly when that marker is not listed (C04); sendline / close / _spawn are recorded as dialogue events',
             'login() is analysed for explicit username, no ssh key / tunnels / config file (the option handling before the dialogue only builds the command line); all dialogue paths are enumerated (the dialogue is loop-free)',
-            'sync_original_prompt() (timing heuristic on the echoed prompt, levenshtein distance) is an oracle returning True or False; that prompt() delimits each command exactly depends on the remote shell honouring the unique prompt',
+            'sync_original_prompt() is an oracle returning True or False for login(); its own body is proved to report True only if the shell answered the second <enter> with at least one character (try_read_prompt and levenshtein_distance are oracles there); that prompt() delimits each command exactly depends on the remote shell honouring the unique prompt',
         ],
     },
     'C06': {
@@ -221,7 +221,7 @@ PROPS = {
     'C02': {
         'contracts': [SS + '__init__', SS + 'search', SR + '__init__', SR + 'search', E + 'do_search'] +
                      [(E + m, 'ctx:' + c) for c in ('exact', 're') for m in ('do_search', 'existing_data', 'new_data', 'expect_loop')] +
-                     [SB + 'expect_list', SB + 'expect', SB + 'expect_exact'],
+                     [SB + 'expect_list'],     # (expect / expect_exact carry the same C02+C04 clause and are checked under C04)
         'assumptions': [
             're.Pattern.search(buffer, pos) returns None or a match with pos <= start <= end <= len(buffer); which occurrence it selects (leftmost from pos) is the re engine\'s contract',
             'str.find / bytes.find(sub, start) returns -1 or the least position >= the clamped start at which sub occurs (assumed contract, cross-checked against CPython)',
